@@ -147,9 +147,9 @@ def run_C18(ctx):
     build_harness(ctx, race=True)
     ctx.race_mode = True
     quick = ctx.tier == "quick"
-    # all interleavings of 2 calls x 4 segments and of 3 calls x 2 (quick) / 3 (thorough) segments
+    # all interleavings of 2 calls x 4 segments and 3 x 2 (quick); thorough: 2 x 4, 3 x 3, 4 x 2 and 2 x 6
     total = 0
-    for n, s in ((2, 4), (3, 2 if quick else 3)):
+    for n, s in (((2, 4), (3, 2)) if quick else ((2, 4), (3, 3), (4, 2), (2, 6))):
         cfg = ("INIT SInit\nNEXT SNext\nCONSTANT N = %d\nCONSTANT S = %d\nINVARIANT PkgUntouched\n"
                "PROPERTY PkgNeverWritten\nINVARIANT EmitSched\nCHECK_DEADLOCK FALSE\n" % (n, s))
         hist, k = generate_histories(ctx, "Sched", cfg, workers=4)
